@@ -67,6 +67,20 @@ class Fn:
             return self.name_of(m.group(1), env)
         if re.fullmatch(r'[a-z_]\w*', e):
             return self.name_of(e, env)
+        if e.startswith('Rc::clone(') and match_close(e, len('Rc::clone')) == len(e) - 1:
+            return self.expr(e[len('Rc::clone('):-1].lstrip('&'), env, pre)
+        if e.startswith('if ') and e.endswith('}'):
+            i = e.index('{')
+            j = match_close(e, i)
+            tail = e[j + 1:].strip()
+            if tail.startswith('else') and tail.rstrip().endswith('}'):
+                k = tail.index('{')
+                p1, p2 = [], []
+                a = self.expr(e[i + 1:j], env, p1)
+                b = self.expr(tail[k + 1:-1], env, p2)
+                if p1 or p2:
+                    fail('conditional expression with partial branches: ' + e[:100])
+                return f'(if {self.cond(e[3:i], env)} then {a} else {b})'
         m = re.fullmatch(r'(\w+)\((.*)\)', e)
         if m and match_close(e, len(m.group(1))) == len(e) - 1:
             f, args = m.group(1), split_top(m.group(2))
@@ -139,9 +153,15 @@ class Fn:
         if m:
             c = split_top(m.group(1))[0]
             return f'if {self.cond(c, env)} then {self.block(more, env)} else None'
+        m = re.fullmatch(r'if (.*?) \{ return (.*?);? \}', s)
+        if m and more and match_close(s, s.index('{')) == len(s) - 1:
+            return f'if {self.cond(m.group(1), env)} then {self.block([m.group(2)], env)} else {self.block(more, env)}'
         m = re.fullmatch(r'if (.*?) \{ (?:panic|unreachable)!\(.*\);? \}', s)
         if m and more:
-            return f'if {self.cond(m.group(1), env)} then None else {self.block(more, env)}'
+            c = m.group(1).strip()
+            if c.startswith('!'):      # `if !C { panic }` is `assert!(C)`
+                return f'if {self.cond(c[1:], env)} then {self.block(more, env)} else None'
+            return f'if {self.cond(c, env)} then None else {self.block(more, env)}'
         m = re.fullmatch(r'let (\w+) = (.*)', s)
         if m:
             pre = []
